@@ -128,6 +128,9 @@ func (e *Extractor) render(n *node) string {
 	case "loop":
 		return "Loop@" + n.text + "{" + e.render(n.kids[0]) + "}"
 	case "star":
+		if controlOnly(n) {
+			return "" // a loop that consumes nothing is not wire grammar
+		}
 		return "Star{" + e.render(n.kids[0]) + "}"
 	case "alt":
 		if n.text == "?" && controlOnly(n) {
@@ -135,6 +138,9 @@ func (e *Extractor) render(n *node) string {
 		}
 		return "Alt[" + n.text + "]{" + e.render(n.kids[0]) + "|" + e.render(n.kids[1]) + "}"
 	case "sw":
+		if controlOnly(n) {
+			return ""
+		}
 		var parts []string
 		for i, k := range n.kids {
 			parts = append(parts, n.label[i]+":"+e.render(k))
@@ -700,6 +706,11 @@ func (e *Extractor) stmt(info *types.Info, s ast.Stmt) *node {
 				out.kids = append(out.kids, e.block(info, els))
 				return out
 			}
+		}
+		if errCond(info, x.Cond) == -1 && e.errorExit(info, x.Body) {
+			// `if err == nil { abort }`: the success path dies here
+			out.kids = append(out.kids, &node{kind: "tok", text: "Abort"})
+			return out
 		}
 		if errCond(info, x.Cond) == -1 {
 			// if err == nil { A } else { error exit }
